@@ -2459,6 +2459,9 @@ class ProvDocument(ProvBundle):
         if valid_id in self._bundles:
             raise ProvException("A bundle with that identifier already exists")
         b = ProvBundle(identifier=valid_id, document=self)
+        # make the identifier valid in the bundle's own scope (as add_bundle
+        # does), so that it keeps its URI whatever the bundle declares later
+        b._identifier = b.valid_qualified_name(valid_id)
         self._bundles[valid_id] = b
         return b
 
